@@ -314,9 +314,12 @@ class TransformDMA(RewritePattern):
         remaining_strides: dict[tuple[int, int], RemainingStride] = {}
 
         # construct the dict. we only need the strides not yet present in the lcb
+        lcb_keys = tsl_source.data.largest_common_contiguous_block_keys(tsl_dest.data)
         for key in bound_ops.keys():
             stride = tsl_source.data.get_stride(*key)
-            if stride not in lcb:
+            # a stride is covered by the dma burst if it is one of the lcb strides itself;
+            # a stride with bound 1 that equals an lcb stride needs no loop either
+            if key not in lcb_keys and not (stride in lcb and stride.bound == 1):
                 remaining_strides[key] = RemainingStride(
                     stride_src=tsl_source.data.get_stride(*key),
                     stride_dst=tsl_dest.data.get_stride(*key),
